@@ -12,7 +12,7 @@
    `rep (eq DeviceError) false m` is the stronger "the error is DeviceError itself".
    rep is compositional over bind, and over `try` provided the handler maps the caught
    DeviceError to an error again - which is exactly what has to be examined at each catch site. *)
-From Coq Require Import NArith ZArith List Bool Lia Arith.
+From Coq Require Import NArith ZArith List Bool Lia Arith FMapPositive.
 From SdFs Require Import FsTypes FsBase FsFat FsMgr FsLemmas PrBase.
 Import ListNotations.
 Open Scope N_scope.
@@ -674,7 +674,7 @@ Proof.
         -- apply rep_add32.
         -- intros so'. apply IH.
         -- intros a [].
-        -- intros r Hn Hb. destruct r; cbn in *; auto. exfalso. eapply Hn. reflexivity.
+        -- intros r Hn Hb. destruct r; cbn [bad cast bad_fdod] in *; auto.
       * apply repG_quiet. rep_auto.
     + intros [c|e]; cbn; [intros []|]. intros <- s r s' H. inversion H; subst. exact QD.
     + intros r Hn. destruct r as [[c|e]| | |]; cbn; auto; try (intros []).
@@ -694,9 +694,9 @@ Proof.
     + apply repG_fdod_walk.
     + intros [[so' sc'] [e|]]; apply repG_quiet; rep_auto.
     + intros [[so' sc'] [e|]]; cbn; [|intros []]. intros He s r s' H. inversion H; subst. exact He.
-    + intros r Hn Hb. destruct r as [[x [e|]]| | |]; cbn in *; auto; exfalso; eapply Hn; reflexivity.
+    + intros r Hn Hb. destruct r as [[x [e|]]| | |]; cbn [bad cast bad_fdd bad_fdod] in *; auto; exfalso; eapply Hn; reflexivity.
   - intros a [].
-  - intros r Hn Hb. destruct r; cbn in *; auto. exfalso. eapply Hn. reflexivity.
+  - intros r Hn Hb. destruct r; cbn [bad cast bad_fdd] in *; auto.
 Qed.
 End Fdod.
 
@@ -713,6 +713,8 @@ Proof.
 Qed.
 
 (* ------------------------------------------------------------------ read, write, flush, close *)
+Ltac to_rep := match goal with |- repG (bad ?P ?np) ?m => change (rep P np m) end.
+
 Section Files.
 Variable P : err -> Prop.
 Variable np : bool.
@@ -724,9 +726,9 @@ Proof.
   rep_step; [rep_auto|]. rep_step; [|rep_auto].
   unfold rep. apply (repG_bind (bad_fdd (eq DeviceError) np)).
   - apply repG_find_data_on_disk. reflexivity.
-  - intros [cur [[[blk boff] bavail]|e]]; fold (rep P np (A:=list N)); rep_auto2.
+  - intros [cur [[[blk boff] bavail]|e]]; to_rep; rep_auto2.
   - intros [cur [x|e]]; cbn; [intros []|]. intros <-. apply always_fail. exact PD.
-  - intros r Hn Hb. destruct r as [[x [y|e]]|e| |]; cbn in *; auto; try (exfalso; eapply Hn; reflexivity).
+  - intros r Hn Hb. destruct r as [[x [y|e]]|e| |]; cbn [bad cast bad_fdd] in *; auto; try (exfalso; eapply Hn; reflexivity).
     subst. exact PD.
 Qed.
 
@@ -736,3 +738,427 @@ Proof. unfold mgr_read. apply rep_locked. rep_auto2. apply rep_read_loop. Qed.
 Lemma rep_flush_file h : rep P np (flush_file h).
 Proof. unfold flush_file. apply rep_locked. rep_auto2. Qed.
 End Files.
+#[export] Hint Resolve rep_read_loop rep_mgr_read rep_flush_file : rep.
+
+(* write_loop maps a caught allocation error to DiskFull and a failed second lookup to
+   AllocationError: still errors, but other ones than DeviceError *)
+Section Write.
+Variable P : err -> Prop.
+Variable np : bool.
+Hypothesis PD : P DeviceError.
+Hypothesis PF : P DiskFull.
+Hypothesis PA : P AllocationError.
+
+Lemma rep_find_again vi cur fstart off :
+  rep P np ('(cur2, r2) <- find_data_on_disk vi cur fstart off ;;
+            match r2 with
+            | inl vars => ret (cur2, vars)
+            | inr _ => @fail ((N * N) * (N * N * N)) AllocationError
+            end).
+Proof.
+  unfold rep. apply (repG_bind (bad_fdd (eq DeviceError) np)).
+  - apply repG_find_data_on_disk. reflexivity.
+  - intros [cur2 [vars|e]]; to_rep; rep_auto.
+  - intros [cur2 [x|e]]; cbn [bad_fdd]; [intros []|]. intros _. apply always_fail. exact PA.
+  - intros r Hn Hb. destruct r as [[x [y|e]]|e| |]; cbn [bad cast bad_fdd] in *; auto;
+      try (exfalso; eapply Hn; reflexivity). subst. exact PD.
+Qed.
+
+Lemma rep_write_loop fi vi : forall fuel data, rep P np (write_loop fuel fi vi data).
+Proof.
+  induction fuel as [|fu IH]; intros data; cbn [write_loop]; [rep_auto|].
+  destruct data as [|d0 data']; [rep_auto|].
+  rep_step; [rep_auto|]. cbv zeta.
+  unfold rep. apply (repG_bind (bad_fdd (eq DeviceError) np)).
+  - apply repG_find_data_on_disk. reflexivity.
+  - intros [cur [vars|e]]; to_rep.
+    + rep_auto2.
+    + rep_step; [|rep_auto2].
+      destruct e; try (rep_auto; fail).
+      apply (rep_try_bind (eq DeviceError)).
+      * apply rep_alloc_cluster. reflexivity.
+      * intros [c|e]; [apply rep_find_again|rep_auto].
+      * intros e _. apply always_fail. exact PF.
+  - intros [cur [x|e]]; cbn [bad_fdd]; [intros []|]. intros <-.
+    apply always_bind_err with (e := DeviceError); [reflexivity|exact PD].
+  - intros r Hn Hb. destruct r as [[x [y|e]]|e| |]; cbn [bad cast bad_fdd] in *; auto;
+      try (exfalso; eapply Hn; reflexivity). subst. exact PD.
+Qed.
+
+Lemma rep_mgr_write h data : rep P np (mgr_write h data).
+Proof. unfold mgr_write. apply rep_locked. rep_auto2. apply rep_write_loop. Qed.
+
+Lemma rep_io_write h data : rep P np (io_write h data).
+Proof. unfold io_write. destruct data; rep_auto. apply rep_mgr_write. Qed.
+End Write.
+
+(* close_file: flush, then remove the handle whatever flush said, then re-raise flush's error.
+   After a device failure in flush the result is an error: the flush error itself, or
+   LockError / BadHandle from the second half (which cannot happen after a flush that got as
+   far as the device, but is an error in any case). *)
+Lemma always_close_tail (r : unit + err) file e : r = inr e ->
+  always (bad (fun _ => True) false)
+    (locked (fi <- get_file_by_id file ;;
+             modify (fun s => set_s_files s (swap_remove (s_files s) fi)) ;;;
+             match r with inl _ => ret tt | inr e => fail e end)).
+Proof.
+  intros -> s r0 s' H. unfold locked, get_file_by_id, bind, get, modify, fail in H.
+  destruct (s_lock s); [inversion H; subst; exact I|].
+  destruct (find_idx (fun f : fileinfo => f_id f =? file) (s_files s) 0); inversion H; subst; exact I.
+Qed.
+
+Lemma rep_close_file h : rep (fun _ => True) false (close_file h).
+Proof.
+  unfold close_file. apply (rep_try_bind (eq DeviceError)).
+  - apply rep_flush_file. reflexivity.
+  - intros x. apply rep_locked. rep_auto.
+  - intros e _. apply (always_close_tail (inr e) h e). reflexivity.
+Qed.
+
+(* mgr_iterate runs `inner` (the user's callback) between taking and releasing the lock and
+   returns its outcome as a VALUE.  It reports provided the callback itself logs no device
+   failure - e.g. the trivial callback, or any manager call (which fails with LockError
+   before reaching the device, see `locked`). *)
+Lemma rep_mgr_iterate (P : err -> Prop) np {R} d (inner : M R) : P DeviceError ->
+  rep (fun _ => False) np inner -> rep P np (mgr_iterate d inner).
+Proof.
+  intros PD Hi. unfold mgr_iterate. apply rep_locked. rep_auto2.
+Qed.
+
+Section Ops.
+Variable P : err -> Prop.
+Variable np : bool.
+Hypothesis PD : P DeviceError.
+
+Lemma rep_open_file_in_dir d name md : rep P np (open_file_in_dir d name md).
+Proof. unfold open_file_in_dir. apply rep_locked. rep_auto2. Qed.
+
+Lemma rep_delete_file_in_dir d name : rep P np (delete_file_in_dir d name).
+Proof. unfold delete_file_in_dir. apply rep_locked. rep_auto2. Qed.
+
+Lemma rep_open_dir d name : rep P np (open_dir d name).
+Proof. unfold open_dir. apply rep_locked. rep_auto2. Qed.
+
+Lemma rep_mgr_find d name : rep P np (mgr_find d name).
+Proof. unfold mgr_find. apply rep_locked. rep_auto2. Qed.
+
+Lemma rep_close_volume v : rep P np (close_volume v).
+Proof. unfold close_volume. apply rep_locked. rep_auto2. Qed.
+
+Lemma rep_parse_volume id idx lba nb : rep P np (parse_volume id idx lba nb).
+Proof. unfold parse_volume. rep_auto2. Qed.
+Hint Resolve rep_parse_volume : rep.
+
+Lemma rep_open_raw_volume idx : rep P np (open_raw_volume idx).
+Proof. unfold open_raw_volume. apply rep_locked. rep_auto2. Qed.
+
+Lemma rep_io_read h n : rep P np (io_read h n).
+Proof. unfold io_read. rep_auto2. Qed.
+
+(* get_root_volume_label: two catch sites.  The error of the listing is kept while the
+   directory handle is closed (close_dir: no device access, its own error is dropped) and then
+   re-raised. *)
+Lemma always_label_tail rd : always (bad P np) (_ <- try (close_dir rd) ;; @fail (option (list N)) DeviceError).
+Proof.
+  intros s r s' H. unfold close_dir, locked, get_dir_by_id, try, bind, get, modify, fail in H.
+  destruct (s_lock s); [inversion H; subst; exact PD|].
+  destruct (find_idx (fun d0 : dirinfo => d_id d0 =? rd) (s_dirs s) 0); inversion H; subst; exact PD.
+Qed.
+
+Lemma rep_get_root_volume_label v : rep P np (get_root_volume_label v).
+Proof.
+  unfold get_root_volume_label. apply rep_locked.
+  rep_step; [rep_auto|]. rep_step; [rep_auto|]. rep_step; [|rep_auto].
+  rep_step; [rep_auto|].
+  apply (rep_try_bind (eq DeviceError)).
+  - apply rep_mgr_iterate; [reflexivity|apply rep_ret].
+  - intros x. rep_auto2.
+  - intros e <-. apply always_label_tail.
+Qed.
+End Ops.
+
+(* make_dir_in_dir inherits make_dir's weaker guarantee (never Ok) *)
+Lemma rep_make_dir_in_dir d name : rep (fun _ => True) true (make_dir_in_dir d name).
+Proof. unfold make_dir_in_dir. apply rep_locked. pose proof I as PD. rep_auto2. Qed.
+
+(* ------------------------------------------------------------------ callbacks run under the lock *)
+Lemma locked_true {A} (m : M A) s : s_lock s = true -> locked m s = (Err LockError, s).
+Proof. intros Hl. unfold locked, bind, get. rewrite Hl. reflexivity. Qed.
+
+Lemma lift_err {A} (f : A -> res) (m : M A) s e : m s = (Err e, s) -> lift f m s = (Err e, s).
+Proof. intros H. unfold lift. apply bind_err. exact H. Qed.
+
+(* quiet: the call leaves the trace alone when started with the lock held *)
+Definition quiet_locked {A} (m : M A) : Prop :=
+  forall s r s', s_lock s = true -> m s = (r, s') -> s_trace s' = s_trace s.
+
+Lemma quiet_locked_err {A} (m : M A) :
+  (forall s, s_lock s = true -> m s = (Err LockError, s)) -> quiet_locked m.
+Proof. intros Hm s r s' Hl H. rewrite (Hm s Hl) in H. inversion H; reflexivity. Qed.
+
+Lemma with_file_true {A} h (k : nat -> fileinfo -> M A) s :
+  s_lock s = true -> with_file h k s = (Err LockError, s).
+Proof. intros Hl. unfold with_file. apply locked_true. exact Hl. Qed.
+
+Lemma close_file_true h s : s_lock s = true -> close_file h s = (Err LockError, s).
+Proof.
+  intros Hl. unfold close_file.
+  assert (Ht : try (flush_file h) s = (Ok (inr LockError), s))
+    by (unfold try, flush_file; rewrite (locked_true _ _ Hl); reflexivity).
+  rewrite (bind_ok _ _ _ _ _ Ht). apply locked_true. exact Hl.
+Qed.
+
+Lemma io_seek_quiet_locked h w x : quiet_locked (io_seek h w x).
+Proof.
+  intros s r s' Hl H. unfold io_seek in H.
+  assert (E : forall (m : M unit), (m = fail InvalidOffset \/ m s = (Err LockError, s)) ->
+              (m ;;; r0 <- try (file_offset h) ;; match r0 with inl o => ret o | inr _ => panic end) s = (r, s') ->
+              s_trace s' = s_trace s).
+  { intros m [->|Hm] Hb.
+    - inversion Hb; reflexivity.
+    - rewrite (bind_err _ _ _ _ _ Hm) in Hb. inversion Hb; reflexivity. }
+  eapply E; [|exact H]. destruct w.
+  - destruct (_ || _); [left; reflexivity|right; apply with_file_true; exact Hl].
+  - destruct (x =? _)%Z; [left; reflexivity|]. cbv zeta.
+    destruct (_ || _); [left; reflexivity|right; apply with_file_true; exact Hl].
+  - destruct (_ || _); [left; reflexivity|right; apply with_file_true; exact Hl].
+Qed.
+
+Lemma step_quiet_locked o : quiet_locked (step o).
+Proof.
+  destruct o; cbn [step];
+    try (apply quiet_locked_err; intros s Hl; apply lift_err;
+         first [ apply locked_true; exact Hl | apply with_file_true; exact Hl | apply close_file_true; exact Hl ]).
+  - (* HasOpen *) intros s r s' Hl H. unfold lift, has_open_handles, bind, get, ret in H. inversion H; reflexivity.
+  - (* IoSeek *) intros s r s' Hl H. unfold lift, bind in H.
+    destruct (io_seek f w x s) as [r1 s1] eqn:E. apply (io_seek_quiet_locked _ _ _ _ _ _ Hl) in E.
+    destruct r1; inversion H; subst; exact E.
+  - (* IoRead *) unfold io_read. destruct (n =? 0).
+    + intros s r s' Hl H. unfold lift, bind, ret in H. inversion H; reflexivity.
+    + apply quiet_locked_err. intros s Hl. apply lift_err. apply locked_true. exact Hl.
+  - (* IoWrite *) unfold io_write. destruct data.
+    + intros s r s' Hl H. unfold lift, bind, ret in H. inversion H; reflexivity.
+    + apply quiet_locked_err. intros s Hl. apply lift_err. apply bind_err. apply locked_true. exact Hl.
+  - (* Remount *) intros s r s' Hl H. unfold lift, remount, bind, modify, ret in H. inversion H; reflexivity.
+Qed.
+
+(* mgr_iterate with a callback that is quiet under the lock (every `step o` is) *)
+Lemma rep_iter_callback P np {R X} (inner : M R) (shown : X) :
+  quiet_locked inner ->
+  rep P np (modify (fun s => set_s_lock s true) ;;;
+            r <- try inner ;;
+            modify (fun s => set_s_lock s false) ;;;
+            ret (shown, Some r)).
+Proof.
+  intros Hq. apply rep_quiet. intros s r s' H.
+  unfold bind, modify, try in H. cbv beta iota in H.
+  destruct (inner (set_s_lock s true)) as [r1 s1] eqn:E.
+  apply Hq in E; [|reflexivity]. cbn in E.
+  destruct r1; inversion H; subst; cbn; exact E.
+Qed.
+
+Lemma rep_mgr_iterate_cb (P : err -> Prop) np {R} d (inner : M R) : P DeviceError ->
+  quiet_locked inner -> rep P np (mgr_iterate d inner).
+Proof.
+  intros PD Hq. unfold mgr_iterate. apply rep_locked.
+  rep_step; [rep_auto|]. rep_step; [rep_auto|]. rep_step; [rep_auto|]. rep_step; [rep_auto|].
+  cbv zeta. rep_step; [rep_auto|]. apply rep_iter_callback. exact Hq.
+Qed.
+
+(* ------------------------------------------------------------------ the whole API *)
+Definition is_mkdir (o : op) : bool := match o with Mkdir _ _ => true | _ => false end.
+
+Lemma rep_lift P np {A} (f : A -> res) (m : M A) : rep P np m -> rep P np (lift f m).
+Proof. intros Hm. unfold lift. rep_auto. Qed.
+
+Theorem rep_step_op o : is_mkdir o = false -> rep (fun _ => True) false (step o).
+Proof.
+  intros Hm. pose proof I as PD.
+  destruct o; try discriminate; cbn [step]; try (apply rep_lift).
+  - apply rep_open_raw_volume; exact I.
+  - apply rep_close_volume; exact I.
+  - rep_auto.
+  - apply rep_open_dir; exact I.
+  - rep_auto.
+  - apply rep_mgr_find; exact I.
+  - apply rep_mgr_iterate_cb; [exact I|].
+    destruct inner as [o'|]; [apply step_quiet_locked|intros s r s' _ H; inversion H; reflexivity].
+  - apply rep_open_file_in_dir; exact I.
+  - apply rep_close_file.
+  - apply rep_flush_file; exact I.
+  - apply rep_mgr_read; exact I.
+  - apply rep_mgr_write; exact I.
+  - rep_auto.
+  - rep_auto.
+  - rep_auto.
+  - rep_auto.
+  - rep_auto.
+  - rep_auto.
+  - apply rep_delete_file_in_dir; exact I.
+  - apply rep_get_root_volume_label; exact I.
+  - rep_auto.
+  - apply rep_io_seek.
+  - apply rep_io_read; exact I.
+  - apply rep_io_write; exact I.
+  - rep_auto.
+Qed.
+
+Theorem rep_step_any o : rep (fun _ => True) true (step o).
+Proof.
+  destruct (is_mkdir o) eqn:E.
+  - destruct o; try discriminate. cbn [step]. apply rep_lift. apply rep_make_dir_in_dir.
+  - eapply rep_weaken; [| |apply rep_step_op; exact E]; auto.
+Qed.
+
+(* C11 for every operation of the API except mkdir: if any block-device read or write fails
+   during the call, the call returns an error - not success, not a panic, not a hang *)
+Theorem C11_api_reports o : is_mkdir o = false -> reports (run_op o).
+Proof. intros H. unfold run_op. eapply rep_reports. apply rep_step_op. exact H. Qed.
+
+(* C11, "never success" half, for every operation including mkdir *)
+Theorem C11_api_never_ok o : never_ok_on_fault (run_op o).
+Proof. unfold run_op. eapply rep_never_ok. apply rep_step_any. Qed.
+
+(* the stronger per-function forms: the error is DeviceError itself *)
+Theorem C11_alloc_cluster vi prev zero : reports_device_error (alloc_cluster vi prev zero).
+Proof. apply rep_reports_device_error, rep_alloc_cluster. reflexivity. Qed.
+Theorem C11_truncate_cluster_chain vi c : reports_device_error (truncate_cluster_chain vi c).
+Proof. apply rep_reports_device_error, rep_truncate_cluster_chain. reflexivity. Qed.
+Theorem C11_free_cluster_chain vi c : reports_device_error (free_cluster_chain vi c).
+Proof. apply rep_reports_device_error, rep_free_cluster_chain. reflexivity. Qed.
+Theorem C11_find_directory_entry vi dc name : reports_device_error (find_directory_entry vi dc name).
+Proof. apply rep_reports_device_error, rep_find_directory_entry. reflexivity. Qed.
+Theorem C11_iterate_dir_all vi dc : reports_device_error (iterate_dir_all vi dc).
+Proof. apply rep_reports_device_error, rep_iterate_dir_all. reflexivity. Qed.
+Theorem C11_delete_directory_entry vi dc name : reports_device_error (delete_directory_entry vi dc name).
+Proof. apply rep_reports_device_error, rep_delete_directory_entry. reflexivity. Qed.
+Theorem C11_write_new_directory_entry vi dc name attr fc :
+  reports_device_error (write_new_directory_entry vi dc name attr fc).
+Proof. apply rep_reports_device_error, rep_write_new_directory_entry. reflexivity. Qed.
+Theorem C11_mgr_read h n : reports_device_error (mgr_read h n).
+Proof. apply rep_reports_device_error, rep_mgr_read. reflexivity. Qed.
+Theorem C11_flush_file h : reports_device_error (flush_file h).
+Proof. apply rep_reports_device_error, rep_flush_file. reflexivity. Qed.
+Theorem C11_open_file_in_dir d name md : reports_device_error (open_file_in_dir d name md).
+Proof. apply rep_reports_device_error, rep_open_file_in_dir. reflexivity. Qed.
+Theorem C11_delete_file_in_dir d name : reports_device_error (delete_file_in_dir d name).
+Proof. apply rep_reports_device_error, rep_delete_file_in_dir. reflexivity. Qed.
+Theorem C11_open_raw_volume idx : reports_device_error (open_raw_volume idx).
+Proof. apply rep_reports_device_error, rep_open_raw_volume. reflexivity. Qed.
+Theorem C11_close_volume v : reports_device_error (close_volume v).
+Proof. apply rep_reports_device_error, rep_close_volume. reflexivity. Qed.
+Theorem C11_get_root_volume_label v : reports_device_error (get_root_volume_label v).
+Proof. apply rep_reports_device_error, rep_get_root_volume_label. reflexivity. Qed.
+Theorem C11_close_file h : reports (close_file h).
+Proof. eapply rep_reports, rep_close_file. Qed.
+Theorem C11_make_dir_never_ok vi parent sfn att : never_ok_on_fault (make_dir vi parent sfn att).
+Proof. eapply rep_never_ok, rep_make_dir. Qed.
+
+(* mgr_write: the error is DeviceError, or DiskFull / AllocationError where write_loop maps a
+   caught error *)
+Theorem C11_mgr_write h data s r s' : mgr_write h data s = (r, s') -> fault_fired s s' ->
+  r = Err DeviceError \/ r = Err DiskFull \/ r = Err AllocationError.
+Proof.
+  intros H (n & X & Hf).
+  destruct (rep_mgr_write (fun e => e = DeviceError \/ e = DiskFull \/ e = AllocationError) false
+              (or_introl eq_refl) (or_intror (or_introl eq_refl)) (or_intror (or_intror eq_refl))
+              h data _ _ _ H) as (n' & X' & F).
+  rewrite (ext_unique _ _ _ _ X X') in Hf. specialize (F Hf).
+  destruct r; cbn in F; try contradiction; try discriminate.
+  destruct F as [ -> | [ -> | -> ] ]; auto.
+Qed.
+
+(* ------------------------------------------------------------------ the hypotheses are satisfiable *)
+Definition ex_faulty : st := init_state (PositiveMap.empty block) 0 1 4 4 [0].
+
+Example ex_fault_fires : fault_fired ex_faulty (snd (cache_read 5 ex_faulty)) /\
+                         fst (cache_read 5 ex_faulty) = Err DeviceError.
+Proof.
+  split; [|reflexivity]. exists [DReadFail 5]. split; [reflexivity|]. exists 5. left. left. reflexivity.
+Qed.
+
+Example ex_open_volume_reports : fst (run_op (OpenVol 0) ex_faulty) = Err DeviceError /\
+                                 fault_fired ex_faulty (snd (run_op (OpenVol 0) ex_faulty)).
+Proof.
+  split; [reflexivity|]. exists [DReadFail 0]. split; [reflexivity|]. exists 0. left. left. reflexivity.
+Qed.
+
+(* what is missing for the full statement on make_dir, made explicit: if the clean-up
+   free_cluster_chain cannot panic or run out of fuel, make_dir reports like everything else *)
+Definition no_panic {A} (r : outcome A) : Prop := r <> Panic /\ r <> OutOfFuel.
+
+Lemma always_then_fail_np {A B} (m : M A) e : always no_panic m ->
+  always (bad (fun _ => True) false) (m ;;; @fail B e).
+Proof.
+  intros Hm s r s' H. unfold bind in H. destruct (m s) as [[a|e'| |] s1] eqn:E; inversion H; subst; cbn; auto.
+  - destruct (Hm _ _ _ E) as [X _]. congruence.
+  - destruct (Hm _ _ _ E) as [_ X]. congruence.
+Qed.
+
+Theorem C11_make_dir_conditional vi parent sfn att :
+  (forall c, always no_panic (free_cluster_chain vi c)) ->
+  reports (make_dir vi parent sfn att).
+Proof.
+  intros Hnp. eapply rep_reports with (P := fun _ => True). pose proof I as PD.
+  unfold make_dir. rep_auto2.
+  all: try (apply rep_for_blocks_from; intros; rep_auto2).
+  apply always_then_fail_np. apply Hnp.
+Qed.
+
+(* The error KIND can be masked: in write_loop a device failure inside alloc_cluster is
+   reported as DiskFull (the crate: `if self.alloc_cluster(..).is_err() { return
+   Err(Error::DiskFull) }`).  Concrete witness: FAT16 volume, a one-cluster file positioned at
+   its end, the second device call (the FAT write of the allocation) fails. *)
+Definition wx_vol : vol :=
+  mk_vol 1 0 100 70000 [] 4 200 10 (Some 100) None None 5000 false 512 190 0 0.
+Definition wx_entry : dirent :=
+  mk_dirent [] (mk_ts 0 0 0 0 0 0) (mk_ts 0 0 0 0 0 0) 0 2 2048 290 0.
+Definition wx_file : fileinfo := mk_fileinfo 9 1 0 2 2048 ReadWriteAppend wx_entry false.
+Definition wx_disk : disk := disk_set (PositiveMap.empty block) 110 (set_bytes zero_block 4 [255; 255]).
+Definition wx_state : st :=
+  set_s_files (set_s_vols (init_state wx_disk 0 1 4 4 [1]) [wx_vol]) [wx_file].
+
+Example C11_write_masks_error_kind :
+  fst (mgr_write 9 [7] wx_state) = Err DiskFull /\
+  fault_fired wx_state (snd (mgr_write 9 [7] wx_state)).
+Proof.
+  split; [vm_compute; reflexivity|].
+  exists [DWriteFail 110; DRead 110]. split; [vm_compute; reflexivity|].
+  exists 110. right. left. reflexivity.
+Qed.
+
+Print Assumptions C11_dev_read_iff.
+Print Assumptions C11_dev_write_iff.
+Print Assumptions C11_cache_read.
+Print Assumptions C11_write_back.
+Print Assumptions C11_write_back_with_duplicate.
+Print Assumptions repG_bind.
+Print Assumptions rep_try_bind.
+Print Assumptions C11_update_fat.
+Print Assumptions C11_next_cluster.
+Print Assumptions C11_write_entry_to_disk.
+Print Assumptions C11_update_info_sector.
+Print Assumptions C11_zero_cluster.
+Print Assumptions C11_find_next_free_cluster.
+Print Assumptions C11_alloc_cluster.
+Print Assumptions C11_truncate_cluster_chain.
+Print Assumptions C11_free_cluster_chain.
+Print Assumptions C11_find_directory_entry.
+Print Assumptions C11_iterate_dir_all.
+Print Assumptions C11_delete_directory_entry.
+Print Assumptions C11_write_new_directory_entry.
+Print Assumptions C11_find_data_on_disk.
+Print Assumptions C11_mgr_read.
+Print Assumptions C11_mgr_write.
+Print Assumptions C11_flush_file.
+Print Assumptions C11_close_file.
+Print Assumptions C11_open_file_in_dir.
+Print Assumptions C11_delete_file_in_dir.
+Print Assumptions C11_open_raw_volume.
+Print Assumptions C11_close_volume.
+Print Assumptions C11_get_root_volume_label.
+Print Assumptions C11_make_dir_never_ok.
+Print Assumptions C11_make_dir_conditional.
+Print Assumptions C11_write_masks_error_kind.
+Print Assumptions C11_api_reports.
+Print Assumptions C11_api_never_ok.
